@@ -6,7 +6,9 @@ An error is a comma-separated chain of wrappers ending in a leaf (every wrapper 
   `E:<n>:<hex msg>` errno · `S:<hex call>` *os.SyscallError · `O:<hex op>:<hex net>:<src>:<dst>` *net.OpError
   (`<src>`/`<dst>` = `-` or role letter `c|s|p|v|d` + hex of the address text) · `W:<hex txt>` fmt wrapper ·
   `eof` · `nc` net.ErrClosed · `oc` os.ErrClosed · `dl` os.ErrDeadlineExceeded · `X:<hex txt>` errors.New ·
-  `N:<hex txt>:<0|1>` another net.Error with that Timeout()
+  `N:<hex txt>:<0|1>` another net.Error with that Timeout() ·
+  `XA:<hex pre>:<addr>:<hex post>` an opaque error whose text names an address (an operation error flattened with %v) ·
+  `NA:<hex pre>:<addr>:<hex post>:<0|1>` a foreign net.Error whose text names an address (*net.AddrError)
 
 `gen|<app>|<err>`   → `nil` or hex of the text of generalizeErr(err)
 `text|<err>`        → `<hex text>|is:<netClosed,eof,epipe,osClosed,reset,refused,aborted,unreach bits>|nt:<net.Error && Timeout()>`
@@ -33,8 +35,16 @@ def parseLeaf (s : String) : Option Err :=
   else if s == "dl" then some .deadline else
   match s.splitOn ":" with
   | ["E", n, m] => do some (.errno (← n.toNat?) (← parseStr m))
-  | ["X", t] => do some (.other (← parseStr t))
-  | ["N", t, b] => do some (.netErr (← parseStr t) (← parseBool b))
+  | ["X", t] => do some (.other [.str (← parseStr t)])
+  | ["N", t, b] => do some (.netErr [.str (← parseStr t)] (← parseBool b))
+  | ["XA", pre, a, post] => do
+    match ← parseAddr a with
+    | some a => some (.other [.str (← parseStr pre), .addr a, .str (← parseStr post)])
+    | none => none
+  | ["NA", pre, a, post, b] => do
+    match ← parseAddr a with
+    | some a => some (.netErr [.str (← parseStr pre), .addr a, .str (← parseStr post)] (← parseBool b))
+    | none => none
   | _ => none
 
 def parseWrapper (s : String) : Option (Err → Err) :=
@@ -43,7 +53,7 @@ def parseWrapper (s : String) : Option (Err → Err) :=
   | ["O", op, net, src, dst] => do
     let op ← parseStr op; let net ← parseStr net; let src ← parseAddr src; let dst ← parseAddr dst
     some (.opError op net src dst)
-  | ["W", t] => do let t ← parseStr t; some (.wrapped t)
+  | ["W", t] => do let t ← parseStr t; some (.wrapped [.str (t ++ ": ")])
   | _ => none
 
 def parseChain : List String → Option Err
